@@ -367,3 +367,339 @@ impl Property for C11Uni {
          non-trivial: the sequence contains a failing item".into()
     }
 }
+
+// ---------------------------------------------------------------------------------------------------------------------
+// Multi
+
+type SyncBoxStream<T> = Pin<Box<dyn futures::Stream<Item = T> + Send + Sync>>;
+static MMAP_SEQ: std::sync::atomic::AtomicU64 = std::sync::atomic::AtomicU64::new(0);
+
+#[derive(Clone, Debug, Serialize, Deserialize)]
+pub struct MultiCase {
+    pub kind:      ChanKind,
+    pub exec:      ExecKind,
+    pub limit:     u8,
+    pub rt:        Rt,
+    pub listeners: u8,
+    pub items:     Vec<Beh>,
+    /// `flush_and_cancel_executor` of listener j once `after` items were sent
+    pub cancel:    Option<(u8, u8)>,
+    /// log channel only: listener 0 is an old/new executor pair (sequential transition or not) subscribed once `pre` items were sent
+    pub oldies:    Option<(bool, u8)>,
+    pub gate_after_close: bool,
+    pub release_after: u8,
+}
+
+pub const MULTI_B: usize = 8;
+pub const MULTI_M: usize = 4;
+
+/// makes a generated case respect what the kinds can do (construction instead of rejection; also applied to replayed cases)
+pub fn multi_sanitize(mut c: MultiCase) -> MultiCase {
+    c.listeners = c.listeners.clamp(1, 3);
+    if !c.kind.is_mmap() { c.oldies = None; }
+    if c.kind.is_arc() { c.items.truncate(MULTI_B); }            // (the Arc kinds wait -- blocking the thread -- when a listener's queue is full)
+    else if c.kind.is_ogre_arc() { c.items.truncate(2 * MULTI_B); }
+    let n = c.items.len() as u8;
+    if let Some((seq, pre)) = c.oldies { c.oldies = Some((seq, pre.min(n))); }
+    let pre = c.oldies.map(|o| o.1).unwrap_or(0);
+    c.cancel = match c.cancel {
+        Some((j, after)) => {
+            let lo: u8 = if c.oldies.is_some() { 1 } else { 0 };
+            if c.listeners <= lo || c.listeners < 2 { None } else { Some((lo + (j % (c.listeners - lo)), after.clamp(pre, n))) }
+        },
+        None => None,
+    };
+    c
+}
+
+pub fn multi_behs(case: &MultiCase) -> Vec<Beh> {
+    let n = case.items.len();
+    let cancel_at = case.cancel.map(|c| c.1 as usize).unwrap_or(0);
+    let pre = case.oldies.map(|o| o.1 as usize).unwrap_or(0);
+    case.items.iter().enumerate().map(|(i, beh)| {
+        let mut x = case.exec.adapt(*beh, false, case.rt.paused());
+        if x == Beh::OkGated && case.gate_after_close {
+            // an item waiting for a gate that opens only after close() was called blocks its listener: flush_and_cancel_executor() (which
+            // flushes every listener) and the pooled kinds' retried sends must not have to wait for it
+            if i < cancel_at || i < pre || (case.kind.is_ogre_arc() && i + MULTI_B < n) { x = Beh::OkYields(1); }
+        }
+        x
+    }).collect()
+}
+
+pub struct MultiOutcome {
+    pub chan:      ChanOutcome,
+    /// per executor: the item numbers it is entitled to
+    pub entitled:  Vec<Vec<u64>>,
+    pub at_cancel: Option<(usize, Vec<u64>, bool)>,
+    pub names:     Vec<String>,
+}
+
+async fn multi_main<C, D>(case: MultiCase) -> MultiOutcome
+where C: FullDuplexMultiChannel<ItemType = u64, DerivedItemType = D> + Send + Sync + 'static,
+      D: Ev {
+    let behs = multi_behs(&case);
+    let n = behs.len() as u64;
+    let l = case.listeners as usize;
+    let n_exec = l + if case.oldies.is_some() { 1 } else { 0 };
+    let world = World::new(behs.clone(), n_exec);
+    let limit = case.limit as u32;
+    let name = format!("rmv-rt-{}-{}", std::process::id(), MMAP_SEQ.fetch_add(1, SeqCst));
+    let multi = Arc::new(Multi::<u64, C, METRICS, D>::new(name.clone()));
+    let pre = case.oldies.map(|o| o.1 as u64).unwrap_or(0);
+    let cancel_at = case.cancel.map(|c| c.1 as u64);
+
+    let fut_stream = |w: Arc<World>, e: usize, s: MutinyStream<'static, u64, C, D>| -> SyncBoxStream<FutItem> {
+        Box::pin(s.map(move |d: D| { let w = Arc::clone(&w); Box::pin(async move { let r = item_future(w, e, d.v()).await; drop(d); r }) as FutItem }))
+    };
+    let plain_fut_stream = |w: Arc<World>, e: usize, s: MutinyStream<'static, u64, C, D>| -> SyncBoxStream<PlainFutItem> {
+        Box::pin(s.map(move |d: D| { let w = Arc::clone(&w); Box::pin(async move { let r = item_future(w, e, d.v()).await.unwrap_or(0); drop(d); r }) as PlainFutItem }))
+    };
+    let fall_stream = |w: Arc<World>, e: usize, s: MutinyStream<'static, u64, C, D>| -> SyncBoxStream<Result<u64, BoxErr>> { Box::pin(s.map(move |d: D| item_sync(&w, e, d.v()))) };
+    let plain_stream = |w: Arc<World>, e: usize, s: MutinyStream<'static, u64, C, D>| -> SyncBoxStream<u64> { Box::pin(s.map(move |d: D| item_sync(&w, e, d.v()).unwrap_or(0))) };
+    let close_cb = |w: &Arc<World>, e: usize| { let w = Arc::clone(w); move |stats: Arc<dyn StreamExecutorStats + Send + Sync>| async move { w.on_callback(e, &stats); } };
+    let err_async = |w: &Arc<World>| { let w = Arc::clone(w); move |err: BoxErr| { let w = Arc::clone(&w); async move { w.on_err(&err.to_string()); } } };
+    let err_sync = |w: &Arc<World>| { let w = Arc::clone(w); move |err: BoxErr| w.on_err(&err.to_string()) };
+
+    // events published before the old/new pair subscribes
+    let m2 = Arc::clone(&multi);
+    let mut sent_ok = send_all(Arc::new(move |v: u64| m2.send(v).is_ok()), pre, 1).await;
+    let mut names = vec![String::new(); n_exec];
+    if let Some((sequential, _)) = case.oldies {
+        let (w_old, w_new) = (Arc::clone(&world), Arc::clone(&world));
+        let new_e = l;
+        names[0] = "old".into(); names[new_e] = "new".into();
+        let r = match case.exec {
+            ExecKind::FutFall => multi.spawn_oldies_executor(limit, sequential, Duration::ZERO, "old".to_string(), move |s| fut_stream(w_old, 0, s), close_cb(&world, 0),
+                                                             "new".to_string(), move |s| fut_stream(w_new, new_e, s), close_cb(&world, new_e), err_async(&world)).await,
+            ExecKind::Fut => multi.spawn_futures_oldies_executor(limit, sequential, Duration::ZERO, "old".to_string(), move |s| plain_fut_stream(w_old, 0, s), close_cb(&world, 0),
+                                                                 "new".to_string(), move |s| plain_fut_stream(w_new, new_e, s), close_cb(&world, new_e)).await,
+            ExecKind::Fall | ExecKind::NonFut => multi.spawn_fallibles_oldies_executor(limit, sequential, "old".to_string(), move |s| fall_stream(w_old, 0, s), close_cb(&world, 0),
+                                                                                       "new".to_string(), move |s| fall_stream(w_new, new_e, s), close_cb(&world, new_e), err_sync(&world)).await,
+            ExecKind::Plain => multi.spawn_non_futures_non_fallible_oldies_executor(limit, sequential, "old".to_string(), move |s| plain_stream(w_old, 0, s), close_cb(&world, 0),
+                                                                                    "new".to_string(), move |s| plain_stream(w_new, new_e, s), close_cb(&world, new_e)).await,
+        };
+        if let Err(e) = r { panic!("spawning the old/new executors failed: {e}"); }
+    }
+    for e in (if case.oldies.is_some() { 1 } else { 0 })..l {
+        let w = Arc::clone(&world);
+        names[e] = format!("L{e}");
+        let r = match case.exec {
+            ExecKind::FutFall => multi.spawn_executor(limit, Duration::ZERO, names[e].clone(), move |s| fut_stream(w, e, s), err_async(&world), close_cb(&world, e)).await,
+            ExecKind::Fut => multi.spawn_futures_executor(limit, Duration::ZERO, names[e].clone(), move |s| plain_fut_stream(w, e, s), close_cb(&world, e)).await,
+            ExecKind::Fall | ExecKind::NonFut => multi.spawn_fallibles_executor(limit, names[e].clone(), move |s| fall_stream(w, e, s), err_sync(&world), close_cb(&world, e)).await,
+            ExecKind::Plain => multi.spawn_non_futures_non_fallible_executor(limit, names[e].clone(), move |s| plain_stream(w, e, s), close_cb(&world, e)).await,
+        };
+        if let Err(e) = r { panic!("spawning an executor failed: {e}"); }
+    }
+    let close_called = Arc::new(tokio::sync::Notify::new());
+    let close_flag = Arc::new(AtomicBool::new(false));
+    spawn_releaser(&world, case.gate_after_close, &close_called, &close_flag, case.release_after);
+    // sends [pre, c), the cancellation of one executor, sends [c, n)
+    let send_range = |from: u64, to: u64| { let m = Arc::clone(&multi); async move {
+        let mut v = from + 1;
+        while v <= to {
+            let mut tries = 0u32;
+            while !m.send(v).is_ok() { tries += 1; if tries > 200_000 { return false; } tokio::task::yield_now().await; }
+            v += 1;
+        }
+        true
+    } };
+    let mut at_cancel = None;
+    match (case.cancel, cancel_at) {
+        (Some((j, _)), Some(c)) => {
+            sent_ok &= send_range(pre, c).await;
+            let ok = multi.flush_and_cancel_executor(names[j as usize].clone(), Duration::ZERO).await;
+            at_cancel = Some((j as usize, world.finished_of(j as usize), ok));
+            sent_ok &= send_range(c, n).await;
+        },
+        _ => { sent_ok &= send_range(pre, n).await; },
+    }
+    close_flag.store(true, SeqCst);
+    close_called.notify_waiters();
+    let returned = multi.close(Duration::ZERO).await;
+    let at_close = snapshot(&world, n_exec, multi.channel.running_streams_count(), multi.channel.is_channel_open(), multi.channel.pending_items_count(), returned);
+    world.open_gate();
+    world.wait_callbacks(n_exec).await;
+    for _ in 0..6 { tokio::task::yield_now().await; }
+    // entitlement
+    let all: Vec<u64> = (1..=n).collect();
+    let mut entitled = vec![vec![]; n_exec];
+    for e in 0..n_exec {
+        entitled[e] = if case.oldies.is_some() && e == 0 { all.iter().copied().filter(|v| *v <= pre).collect() }
+                      else if Some(e) == case.cancel.map(|c| c.0 as usize) { all.iter().copied().filter(|v| *v > pre && *v <= cancel_at.unwrap_or(n)).collect() }
+                      else { all.iter().copied().filter(|v| *v > pre).collect() };
+    }
+    let cbs = world.callbacks.lock().unwrap().clone();
+    let statuses = (0..n_exec).map(|e| cbs.iter().find(|c| c.executor == e).map(|c| c.status.clone()).unwrap_or_else(|| "no-callback".into())).collect();
+    let counters = (0..n_exec).map(|e| cbs.iter().find(|c| c.executor == e).map(|c| (c.ok, c.timed_out, c.failed)).unwrap_or((0, 0, 0))).collect();
+    if case.kind.is_mmap() { let _ = std::fs::remove_file(format!("/tmp/{name}.mmap")); }
+    let chan = ChanOutcome { world, behs, n_exec, accepted: if sent_ok { all } else { vec![] }, at_close, finished_executors: n_exec as u32, statuses, counters, gave_up_sending: !sent_ok };
+    MultiOutcome { chan, entitled, at_cancel, names }
+}
+
+type BoxMultiOutcome = Pin<Box<dyn Future<Output = MultiOutcome>>>;
+
+fn multi_dispatch(case: MultiCase) -> BoxMultiOutcome {
+    match case.kind {
+        ChanKind::MultiArcAtomic    => Box::pin(multi_main::<ChannelMultiArcAtomic<u64, MULTI_B, MULTI_M>, _>(case)),
+        ChanKind::MultiArcFullSync  => Box::pin(multi_main::<ChannelMultiArcFullSync<u64, MULTI_B, MULTI_M>, _>(case)),
+        ChanKind::MultiArcCrossbeam => Box::pin(multi_main::<ChannelMultiArcCrossbeam<u64, MULTI_B, MULTI_M>, _>(case)),
+        ChanKind::MultiOgreAtomic   => Box::pin(multi_main::<ChannelMultiOgreArcAtomic<u64, MULTI_B, MULTI_M>, _>(case)),
+        ChanKind::MultiOgreFullSync => Box::pin(multi_main::<ChannelMultiOgreArcFullSync<u64, MULTI_B, MULTI_M>, _>(case)),
+        ChanKind::MultiMmap         => Box::pin(multi_main::<ChannelMultiMmapLog<u64, MULTI_M>, _>(case)),
+        other => panic!("not a Multi kind: {other:?}"),
+    }
+}
+
+pub fn judge_multi(case: &MultiCase, m: &MultiOutcome) -> Vec<(Clause, String, String)> {
+    let mut out = vec![];
+    let o = &m.chan;
+    let w = &o.world;
+    let exec = case.exec;
+    let limit = case.limit;
+    let lim = if limit == 1 { "limit=1" } else { "limit>1" };
+    let k = format!("multi/{}", exec.name());
+    let cancelled = case.cancel.map(|c| c.0 as usize);
+    // --- C06: at the instant close() returned, per listener
+    for e in 0..o.n_exec {
+        if Some(e) == cancelled { continue; }
+        let unprocessed: Vec<u64> = m.entitled[e].iter().copied().filter(|v| !o.at_close.finished[e].contains(v)).collect();
+        if unprocessed.is_empty() { continue; }
+        let in_flight_only = unprocessed.iter().all(|v| o.at_close.started[e].contains(v));
+        let sig = if in_flight_only && exec.futures() && limit > 1 { "multi/futures-executor/limit>1/item-futures-still-in-flight-when-close-returned".to_string() }
+                  else { format!("{k}/{lim}/unprocessed-when-close-returned/{}", if in_flight_only { "in-flight" } else { "not-even-started" }) };
+        out.push((Clause::C06, sig, format!("close() returned while listener {e} ({}) had not fully processed the accepted events {unprocessed:?}", m.names[e])));
+        break;
+    }
+    if !o.at_close.returned { out.push((Clause::C06, format!("{k}/close-reported-failure"), "close(Duration::ZERO) answered false".into())); }
+    if o.at_close.running != 0 { out.push((Clause::C06, format!("{k}/streams-running-after-close"), format!("running_streams_count() == {} right after close() returned", o.at_close.running))); }
+    if o.at_close.open { out.push((Clause::C06, format!("{k}/open-after-close"), "is_channel_open() right after close() returned".into())); }
+    // --- the cancelled executor (C07): everything accepted before the request, nothing sent after it had ended; at the return of the call
+    if let (Some(j), Some((_, done_then, ok))) = (cancelled, m.at_cancel.as_ref()) {
+        if !ok { out.push((Clause::C07, format!("{k}/flush_and_cancel-reported-failure"), format!("flush_and_cancel_executor({}) answered false", m.names[j]))); }
+        let unprocessed: Vec<u64> = m.entitled[j].iter().copied().filter(|v| !done_then.contains(v)).collect();
+        if !unprocessed.is_empty() {
+            let started = w.started_of(j);
+            let in_flight_only = unprocessed.iter().all(|v| started.contains(v));
+            let sig = if in_flight_only && exec.futures() && limit > 1 { "multi/futures-executor/limit>1/item-futures-still-in-flight-when-flush_and_cancel-returned".to_string() }
+                      else { format!("{k}/{lim}/unprocessed-when-flush_and_cancel-returned") };
+            out.push((Clause::C07, sig, format!("flush_and_cancel_executor({}) returned while the events {unprocessed:?}, accepted before the call, had not been fully processed by that listener", m.names[j])));
+        }
+    }
+    // --- finally: every listener processed exactly what it is entitled to
+    for e in 0..o.n_exec {
+        let fin = w.finished_of(e);
+        if multiset(&fin) == multiset(&m.entitled[e]) { continue; }
+        let lost: Vec<u64> = m.entitled[e].iter().copied().filter(|v| !fin.contains(v)).collect();
+        let extra: Vec<u64> = fin.iter().copied().filter(|v| !m.entitled[e].contains(v)).collect();
+        let role = if Some(e) == cancelled { "cancelled-listener" } else if case.oldies.is_some() && e == 0 { "old-events-listener" } else if case.oldies.is_some() && e == o.n_exec - 1 { "new-events-listener" } else { "listener" };
+        let clause = if Some(e) == cancelled || (cancelled.is_some() && lost.iter().any(|v| *v > case.cancel.unwrap().1 as u64)) { Clause::C07 } else if role.contains("events-listener") { Clause::C12 } else { Clause::C06 };
+        let what = if !lost.is_empty() { "missed-events" } else if !extra.is_empty() { "got-events-it-is-not-entitled-to" } else { "processed-twice" };
+        out.push((clause, format!("{k}/{lim}/{role}/{what}"), format!("{role} {e} ({}) finally processed {fin:?}; entitled to {:?} (missed {lost:?}, not entitled {extra:?}; dropped mid-processing: {:?})", m.names[e], m.entitled[e], w.dropped_incomplete.lock().unwrap()[e])));
+        break;
+    }
+    // --- C11 through the Multi
+    for e in 0..o.n_exec {
+        let max = w.max_in_flight[e].load(SeqCst);
+        if exec.futures() && max > limit as i64 { out.push((Clause::C11, format!("{k}/limit-exceeded"), format!("executor {e} had {max} item futures in progress at once; the concurrency limit is {limit}"))); break; }
+    }
+    let errs: Vec<u64> = (0..o.n_exec).flat_map(|e| w.finished_of(e)).filter(|v| o.behs[*v as usize - 1].is_err()).collect();
+    let cb_errs: Vec<u64> = w.errs.lock().unwrap().iter().map(|x| x.0).collect();
+    if exec.has_err_callback() && multiset(&cb_errs) != multiset(&errs) { out.push((Clause::C11, format!("{k}/error-callback-mismatch"), format!("failed items (over all listeners) {errs:?}; error callback invoked for {cb_errs:?}"))); }
+    for e in 0..o.n_exec {
+        let fin = w.finished_of(e);
+        let f = fin.iter().filter(|v| o.behs[**v as usize - 1].is_err()).count() as u32;
+        let want = (fin.len() as u32 - f, 0u32, f);
+        if o.counters[e] != want && o.statuses[e] != "no-callback" { out.push((Clause::C11, format!("{k}/counters-mismatch"), format!("executor {e} processed ok/timed-out/failed = {want:?}; its close callback saw {:?}", o.counters[e]))); break; }
+    }
+    // --- C12: one close callback per executor, after its last item, in the right ended state
+    let cbs = w.callbacks.lock().unwrap().clone();
+    for e in 0..o.n_exec {
+        let mine: Vec<&CallbackRec> = cbs.iter().filter(|c| c.executor == e).collect();
+        if mine.len() != 1 { out.push((Clause::C12, format!("{k}/close-callback-count"), format!("the close callback of executor {e} ({}) ran {} times", m.names[e], mine.len()))); break; }
+        let cb = mine[0];
+        let last = w.finished.lock().unwrap()[e].iter().map(|x| x.1).max().unwrap_or(0);
+        if cb.stamp < last { out.push((Clause::C12, format!("{k}/close-callback-before-last-item"), format!("the close callback of executor {e} ran at logical time {} but one of its items completed at {last}", cb.stamp))); break; }
+        // (an executor that had not started yet when it was scheduled to finish ends as StreamEnded: the property only forbids ProgrammaticallyEnded for executors nobody scheduled to finish)
+        let fine = cb.status == "StreamEnded" || (cb.status == "ProgrammaticallyEnded" && Some(e) == cancelled);
+        if !fine { out.push((Clause::C12, format!("{k}/close-callback-status/{}", cb.status), format!("executor {e} ({}) {}: its close callback found it in state {}", m.names[e], if Some(e) == cancelled { "was ended through flush_and_cancel_executor" } else { "was never scheduled to finish" }, cb.status))); break; }
+        if cb.finish_delta < cb.start_delta || cb.finish_delta == u64::MAX { out.push((Clause::C12, format!("{k}/finish-before-start"), format!("executor {e}: start delta {} ns, finish delta {} ns", cb.start_delta, cb.finish_delta))); break; }
+    }
+    if let Some((true, _)) = case.oldies {
+        let last_old = w.finished.lock().unwrap()[0].iter().map(|x| x.1).max().unwrap_or(0);
+        let first_new = w.started.lock().unwrap()[o.n_exec - 1].iter().map(|x| x.1).min();
+        let old_complete = multiset(&w.finished_of(0)) == multiset(&m.entitled[0]);
+        if let Some(f) = first_new { if f < last_old || (!old_complete) { out.push((Clause::C12, format!("{k}/sequential-transition/new-event-processed-before-the-old-ones"), format!("sequential transition: a new event entered processing at logical time {f}, the last old event completed at {last_old}"))); } }
+    }
+    out
+}
+
+pub fn multi_case_strategy() -> BoxedStrategy<MultiCase> {
+    let beh = prop_oneof![4 => Just(Beh::Ok), 3 => (1u8..4).prop_map(Beh::OkYields), 2 => Just(Beh::OkGated), 2 => Just(Beh::Err), 1 => (1u8..4).prop_map(Beh::ErrYields)];
+    (any::<u16>(), any::<u16>(), 1u8..=4, rt_strategy(), 1u8..=3, vec(beh, 0..20),
+     prop_oneof![2 => Just(None), 1 => (any::<u8>(), 0u8..20).prop_map(Some)], prop_oneof![1 => Just(None), 2 => (any::<bool>(), 0u8..8).prop_map(Some)], any::<bool>(), 0u8..10)
+        .prop_map(|(k, e, limit, rt, listeners, items, cancel, oldies, gate_after_close, release_after)| {
+            multi_sanitize(MultiCase { kind: pick(&crate::chan::MULTI_KINDS, k), exec: pick(&UNI_EXECS, e), limit, rt, listeners, items, cancel, oldies, gate_after_close, release_after })
+        }).boxed()
+}
+
+pub fn multi_report(case: &MultiCase, clause: Clause, known_is: &dyn Fn(&str) -> bool) -> RunReport {
+    let case = &multi_sanitize(case.clone());
+    let c2 = case.clone();
+    let end = run_case(case.rt, move || multi_dispatch(c2));
+    let behs = multi_behs(case);
+    let mut classes = vec![format!("kind:{}", case.kind.short()), format!("fn:{}", case.exec.name()), format!("limit:{}", case.limit), format!("runtime:{}", case.rt.name()), format!("listeners:{}", case.listeners)];
+    if case.cancel.is_some() { classes.push("one-executor-cancelled".into()); }
+    if let Some((seq, _)) = case.oldies { classes.push(format!("old/new-pair(sequential={seq})")); }
+    let busy = case.gate_after_close && behs.contains(&Beh::OkGated);
+    if busy { classes.push("work-outstanding-when-close-was-called".into()); }
+    let fingerprint = { use std::hash::{Hash, Hasher}; let mut h = std::collections::hash_map::DefaultHasher::new(); format!("{clause:?}{case:?}").hash(&mut h); h.finish() };
+    let mut nontrivial = false;
+    let (verdict, summary) = match end {
+        CaseEnd::Done(m) if m.chan.gave_up_sending => (Verdict::Inconclusive("sends-never-accepted".into()), "gave up sending".into()),
+        CaseEnd::Done(m) => {
+            let o = &m.chan;
+            let summary = format!("{} items {:?}; entitled {:?}; processed when close() returned: {:?}; finally: {:?}; callbacks {:?}", behs.len(), behs.iter().map(|b| b.short()).collect::<Vec<_>>(), m.entitled,
+                                  o.at_close.finished, (0..o.n_exec).map(|e| o.world.finished_of(e)).collect::<Vec<_>>(), o.world.callbacks.lock().unwrap().iter().map(|c| (c.executor, c.stamp, c.status.clone())).collect::<Vec<_>>());
+            let found = judge_multi(case, &m);
+            nontrivial = match clause {
+                Clause::C06 => busy || !behs.is_empty() && !case.rt.paused(),
+                Clause::C12 => o.n_exec >= 2,
+                Clause::C07 => case.cancel.is_some(),
+                Clause::C11 => behs.iter().any(|b| b.is_err()),
+            };
+            let mine: Vec<&(Clause, String, String)> = found.iter().filter(|f| f.0 == clause).collect();
+            let pickd = mine.iter().find(|f| !known_is(&f.1)).or(mine.first());
+            (match pickd { None => Verdict::Pass, Some((_, signature, detail)) => Verdict::Violation { signature: signature.clone(), detail: format!("{detail}; {summary}") } }, summary)
+        },
+        CaseEnd::Hang { decided } => { if std::env::var("RMV_SHOW_HANGS").is_ok() { eprintln!("HANG {}", serde_json::to_string(case).unwrap()); } (Verdict::Inconclusive(if decided { "no-progress(paused-clock)".into() } else { "watchdog".into() }), "did not finish".into()) },
+        CaseEnd::Panicked(p) => (Verdict::Violation { signature: format!("multi/{}/panic", case.exec.name()), detail: format!("a task panicked: {p:?}") }, format!("panic {p:?}")),
+    };
+    if matches!(verdict, Verdict::Violation { .. }) { nontrivial = true; }
+    RunReport { verdict, nontrivial, classes, fingerprint, trace: None, summary }
+}
+
+macro_rules! multi_part {
+    ($name:ident, $part:expr, $clause:expr, $prop:expr, $quick:expr, $thorough:expr, $rule:expr) => {
+        pub struct $name;
+        impl Property for $name {
+            type Case = MultiCase;
+            fn attempts(&self, case: &MultiCase) -> u32 { if case.rt.paused() { 1 } else { 25 } }
+            fn part(&self) -> &'static str { $part }
+            fn strategy(&self, _tier: Tier) -> BoxedStrategy<MultiCase> { multi_case_strategy() }
+            fn cases(&self, tier: Tier) -> u32 { match tier { Tier::Quick => $quick, Tier::Thorough => $thorough } }
+            fn run(&self, case: &MultiCase) -> RunReport { multi_report(case, $clause, &known_for($prop)) }
+            fn rule(&self) -> String { format!("generated: Multi over the 6 channel kinds (BUFFER_SIZE 8, MAX_STREAMS 4) x {{spawn_executor | spawn_futures_executor | spawn_fallibles_executor | spawn_non_futures_non_fallible_executor}} x concurrency limit 1..4 x runtime x 1..3 listeners (executors) x 0..19 events (the Arc kinds at most BUFFER_SIZE: they wait when full) over {{ok, ok after k yields, ok once a gate opens, error, error after k yields}} x optionally flush_and_cancel_executor() of one listener after i sends x on the log channel optionally one old/new executor pair (sequential transition on / off) subscribed after p events x gate opening before or after close() was called; timeout Duration::ZERO; {}", $rule) }
+        }
+    }
+}
+
+multi_part!(C06Multi, "multi-close", Clause::C06, "C06", 3_000, 60_000,
+    "oracle: at the instant close() returns every listener that was not cancelled has fully processed every event it is entitled to, close answered true, running_streams_count()==0, !is_channel_open(); after all close callbacks each listener processed exactly its entitlement (nothing discarded, nothing twice); non-trivial: work outstanding when close() was called, or a multi-thread runtime");
+multi_part!(C07Multi, "multi-cancel-one", Clause::C07, "C07", 2_000, 40_000,
+    "oracle: flush_and_cancel_executor(j) answers true and returns after listener j has fully processed everything accepted before the call; listener j processes nothing sent after it ended; every other listener still processes every event, also the ones sent afterwards; non-trivial: an executor was cancelled");
+multi_part!(C11Multi, "multi-accounting", Clause::C11, "C11", 1_500, 30_000,
+    "oracle: per executor at most `limit` item futures in progress; the error callback runs once per failed item per listener; each executor's ok / failed counters (seen in its close callback) equal what it processed; non-trivial: a failing item");
+multi_part!(C12Multi, "multi-lifecycle", Clause::C12, "C12", 2_500, 50_000,
+    "oracle: every executor's close callback runs exactly once, after the last item of that executor, finding it in state StreamEnded -- or ProgrammaticallyEnded iff it was ended through flush_and_cancel_executor -- with finish >= start; old/new pair: the old executor processes exactly the p events published before it subscribed, the new one exactly the rest, and with sequential_transition no new event enters processing before the last old one completed; non-trivial: at least 2 executors");
